@@ -9,6 +9,10 @@ import (
 	"github.com/xinchentechnote/fin-protoc/internal/model"
 )
 
+// maxFixedStringLength bounds char[n]/zchar[n]: the generators materialise n characters in
+// sample values, and no wire format needs more.
+const maxFixedStringLength = 1 << 20
+
 // ParseFile parses a DSL file and returns a slice of Packet models or an error.
 func ParseFile(filename string) (interface{}, error) {
 	// Create a new parser by reading the file
@@ -51,7 +55,15 @@ func (v *PacketDslVisitorImpl) metaDataDeclarationToMetaData(ctx *gen.MetaDataDe
 			Type: ctx.Type_().GetText(),
 		}
 	} else if ctx.Type_().FixedString() != nil {
-		size, _ := strconv.Atoi(ctx.Type_().FixedString().DIGITS().GetText())
+		size, err := strconv.Atoi(ctx.Type_().FixedString().DIGITS().GetText())
+		if err != nil || size > maxFixedStringLength {
+			v.BinModel.AddSyntaxError(&model.SyntaxError{
+				Line:   ctx.GetStart().GetLine(),
+				Column: ctx.GetStart().GetColumn(),
+				Msg:    "Fixed string length " + ctx.Type_().FixedString().DIGITS().GetText() + " of " + ctx.GetName().GetText() + " is out of range",
+			})
+			size = 0
+		}
 		if strings.Contains(ctx.Type_().GetText(), "zchar") {
 			attr = &model.FixedStringFieldAttribute{
 				Length:  size,
@@ -489,7 +501,15 @@ func (v *PacketDslVisitorImpl) metaDataDeclarationToField(ctx *gen.MetaDataDecla
 			Type: ctx.Type_().GetText(),
 		}
 	} else if ctx.Type_().FixedString() != nil {
-		size, _ := strconv.Atoi(ctx.Type_().FixedString().DIGITS().GetText())
+		size, err := strconv.Atoi(ctx.Type_().FixedString().DIGITS().GetText())
+		if err != nil || size > maxFixedStringLength {
+			v.BinModel.AddSyntaxError(&model.SyntaxError{
+				Line:   ctx.GetStart().GetLine(),
+				Column: ctx.GetStart().GetColumn(),
+				Msg:    "Fixed string length " + ctx.Type_().FixedString().DIGITS().GetText() + " of " + ctx.GetName().GetText() + " is out of range",
+			})
+			size = 0
+		}
 		if strings.Contains(ctx.Type_().GetText(), "zchar") {
 			attr = &model.FixedStringFieldAttribute{
 				Length:  size,
